@@ -161,9 +161,9 @@ CHECKS["C37"] = dict(
                _c37_gen("seq", "seq", max=40)],
         thorough=[_c37_gen("dev", "dev"),
                   _c37_gen("raw", "raw"),
-                  _c37_gen("seq", "seq", max=1500),
-                  _c37_gen("pair", "pair", max=2500)]
-                 + [_c37_gen("product", "product-" + m, env={"VERIF_MT": m}, max=400) for m in _C37_PRODUCT_MTS]),
+                  _c37_gen("seq", "seq", max=1000),
+                  _c37_gen("pair", "pair", max=1500)]
+                 + [_c37_gen("product", "product-" + m, env={"VERIF_MT": m}, max=250) for m in _C37_PRODUCT_MTS]),
     judge=dict(spec="MsgShapesTrace.tla", cfg="MsgShapesTrace.cfg"),
     driver_timeout=3000,
     corrupt=_c37_corrupt,
